@@ -69,9 +69,12 @@ type step struct {
 type pcfg struct {
 	KeyLen int    `json:"keylen"`
 	EIH    bool   `json:"eih"`
-	Size   uint64 `json:"size"`
-	Hi     bool   `json:"hi"` // the case may use ids near 2^63 / 2^64-1 (otherwise ids stay low)
-	Seed   uint64 `json:"seed"`
+	Size   uint64 `json:"size"` // the window size the model uses
+	// Default: the constructors get filterSize 0, the documented "omitted" value that stands for
+	// DefaultSlidingWindowFilterSize = 256 (ss2022/header.go); Size is then 256.
+	Default bool   `json:"default_size,omitempty"`
+	Hi      bool   `json:"hi"` // the case may use ids near 2^63 / 2^64-1 (otherwise ids stay low)
+	Seed    uint64 `json:"seed"`
 }
 
 func (c pcfg) String() string { b, _ := json.Marshal(c); return string(b) }
@@ -94,10 +97,28 @@ func drawCfg(rt *rapid.T) pcfg {
 	return pcfg{
 		KeyLen: rapid.SampledFrom([]int{16, 32}).Draw(rt, "keylen"),
 		EIH:    rapid.Bool().Draw(rt, "eih"),
-		Size:   rapid.SampledFrom(filterSizes).Draw(rt, "size"),
+		Size:   rapid.SampledFrom(append([]uint64{0}, filterSizes...)).Draw(rt, "size"), // 0: omitted -> default
 		Hi:     rapid.IntRange(0, 3).Draw(rt, "hi") == 0,
 		Seed:   rapid.Uint64().Draw(rt, "seed"),
+	}.norm()
+}
+
+// documentedDefaultWindow restates ss2022.DefaultSlidingWindowFilterSize.
+const documentedDefaultWindow = 256
+
+func (c pcfg) norm() pcfg {
+	if c.Size == 0 {
+		c.Size, c.Default = documentedDefaultWindow, true
 	}
+	return c
+}
+
+// sizeArg is what the constructors are given.
+func (c pcfg) sizeArg() uint64 {
+	if c.Default {
+		return 0
+	}
+	return c.Size
 }
 
 // drawPlan draws a history. clientSide adds the session ops (opSwitch, Sess selectors) and up to
@@ -293,7 +314,7 @@ func newEndpoint(c pcfg, salt uint64) (*endpoint, error) {
 	if err != nil {
 		return nil, err
 	}
-	cli := ss2022.NewUDPClient("c", "ip", conn.AddrFromIPPort(pktServerAddr), 1500, conn.DefaultUDPClientListenConfig, c.Size, ccc, ss2022.NoPadding)
+	cli := ss2022.NewUDPClient("c", "ip", conn.AddrFromIPPort(pktServerAddr), 1500, conn.DefaultUDPClientListenConfig, c.sizeArg(), ccc, ss2022.NoPadding)
 	info, sess, err := cli.NewSession(context.Background())
 	if err != nil {
 		return nil, err
@@ -304,7 +325,7 @@ func newEndpoint(c pcfg, salt uint64) (*endpoint, error) {
 		if err != nil {
 			return nil, err
 		}
-		e.server = ss2022.NewUDPServer(c.Size, ss2022.UserCipherConfig{}, icc, ss2022.NoPadding)
+		e.server = ss2022.NewUDPServer(c.sizeArg(), ss2022.UserCipherConfig{}, icc, ss2022.NoPadding)
 		succ, err := ss2022.NewServerUserCipherConfig("u", e.keys.PSK, true)
 		if err != nil {
 			return nil, err
@@ -315,7 +336,7 @@ func newEndpoint(c pcfg, salt uint64) (*endpoint, error) {
 		if err != nil {
 			return nil, err
 		}
-		e.server = ss2022.NewUDPServer(c.Size, ucc, ss2022.ServerIdentityCipherConfig{}, ss2022.NoPadding)
+		e.server = ss2022.NewUDPServer(c.sizeArg(), ucc, ss2022.ServerIdentityCipherConfig{}, ss2022.NoPadding)
 	}
 	return e, nil
 }
